@@ -521,6 +521,7 @@ const rule = "Real matcher (cgo obiapat + obialign.LocatePattern) executed next 
 	"strand: hits of ReverseComplement(P) on s vs hits of P on revcomp(s) mirrored, and vs the oracle on the reversed model. " +
 	"best: FilterBestMatch / AllMatches / BestMatch (span inside the sequence, error count = edit distance(pattern, span), reported iff some substring is within the budget). " +
 	"locate: obialign.LocatePattern vs full-matrix semi-global DP. sanitizer / sanitizer-ubsan: ASan (go build -asan) and UBSan (shift,bounds,signed-integer-overflow,integer-divide-by-zero,null on the C side) builds of obigrep/obipcr/obiannotate on generated files, output compared with the plain build and (obigrep) with the oracle; mismatch, indel and best are also run on the -race twin (checkptr at the cgo boundary). " +
+	"Added later: concurrent sub-check (one compiled pattern / one predicate shared by 2-16 goroutines), window lengths 2^20..MaxInt32, the reverse complement derived (once or twice) before half of the patterns are used. " +
 	"distinct_nontrivial = distinct (mode, pattern-length class, budget, construct set, sequence-length class, window kind, number of expected hits capped at 3, plant geometry, recycled) classes among searches with at least one expected hit or planted occurrence (exhaustive parts: distinct (pattern, budget, sequence length) with at least one hit)"
 
 func init() {
